@@ -4,7 +4,7 @@
 From QV Require Import Found.Base Found.KS Found.KSProofs Found.Sym Found.SymProofs Gen.Gates Spec.GateSpec Proofs.C09.
 From Coq Require Import Reals.
 From Coquelicot Require Import Coquelicot.
-From QV Require Import Found.Conj Found.CInst Proofs.C09R.
+From QV Require Import Found.Conj Found.CInst Proofs.C09R Found.Comm Found.Ctrl Found.CtrlTab Proofs.C09Ctrl.
 
 (* the name-dispatch of a generic Gate object yields the documented matrix *)
 Theorem lib_dispatch_is_documented : forall (R : PhaseRing) name m, In (name, m) dispatch ->
@@ -60,6 +60,16 @@ Theorem lib_unitary_real : forall (th : nat -> R) name ar s, assoc name spec = S
   = if Nat.eqb i j then RtoC 1 else RtoC 0.
 Proof. exact spec_unitary_real. Qed.
 Print Assumptions lib_unitary_real.
+
+(* ---- second sentence of C09: the controlled version built by controlled_gate (block-diagonal, block `control_value` = U,
+   embedded on controls ++ targets) applies U exactly on the assignments whose control bits (first listed = most
+   significant) read the control value - any number of controls, any value, any k-qubit U, any placement/register ---- *)
+Theorem controlled_gate_spec : forall (R : PhaseRing) nc cv (U : ptab) k cs ts (psi : state R) x,
+  length U = (2 ^ k)%nat -> length cs = nc -> length ts = k -> NoDup cs -> Comm.disjoint cs ts ->
+  Base.app (emat R (smat (ptctrl nc cv U))) (cs ++ ts) psi x =
+  if Nat.eqb (idx (map x cs)) cv then Base.app (emat R (smat U)) ts psi x else psi x.
+Proof. exact C09Ctrl.controlled_gate_spec. Qed.
+Print Assumptions controlled_gate_spec.
 
 (* non-vacuity: the tables are not empty and RX is in all of them *)
 Example dispatch_has_rx : exists m, In ("RX"%string, m) dispatch /\ mok m = true.
